@@ -217,7 +217,8 @@ pub fn guard<T>(f: impl FnOnce() -> T) -> Option<T> {
 pub struct Finding {
     pub id: String,
     pub prop: String,
-    pub cell: String, // exact cell name, or prefix ending in '*'
+    pub cell: String, // display form of the patterns
+    pub cells: Vec<String>, // cell-name patterns ('*' matches any run of characters)
     pub desc: String,
     pub whole_cell: bool,
     pub skip: bool, // do not execute these cases (they hang)
@@ -229,7 +230,7 @@ impl Finding {
         if self.prop != prop {
             return false;
         }
-        glob(&self.cell, cell)
+        self.cells.iter().any(|p| glob(p, cell))
     }
     fn contains(&self, key: u128) -> bool {
         if self.whole_cell {
@@ -318,7 +319,14 @@ pub fn load_findings(dir: &str) -> Vec<Finding> {
         out.push(Finding {
             id: f["id"].as_str().unwrap_or("?").to_string(),
             prop: f["property"].as_str().unwrap_or("?").to_string(),
-            cell: f["cell"].as_str().unwrap_or("?").to_string(),
+            cell: match f["cells"].as_array() {
+                Some(a) => a.iter().filter_map(|x| x.as_str()).collect::<Vec<_>>().join(" | "),
+                None => f["cell"].as_str().unwrap_or("?").to_string(),
+            },
+            cells: match f["cells"].as_array() {
+                Some(a) => a.iter().filter_map(|x| x.as_str().map(|s| s.to_string())).collect(),
+                None => vec![f["cell"].as_str().unwrap_or("?").to_string()],
+            },
             desc: f["description"].as_str().unwrap_or("").to_string(),
             whole_cell: f["kind"].as_str() == Some("cell"),
             skip: f["skip"].as_bool().unwrap_or(false),
@@ -357,6 +365,8 @@ pub struct Cfg {
     pub profile: String,
     pub no_evidence: bool,
     pub extra: BTreeMap<String, String>,
+    /// property id used for known findings, verdict lines, replay and evidence (differs from `prop` when C16 reuses the cells of another property)
+    pub report: String,
 }
 
 impl Cfg {
@@ -381,6 +391,7 @@ impl Cfg {
             profile: if cfg!(debug_assertions) { "chk".into() } else { "release".into() },
             no_evidence: false,
             extra: BTreeMap::new(),
+            report: String::new(),
         };
         let a: Vec<String> = std::env::args().skip(1).collect();
         let mut i = 0;
@@ -405,6 +416,7 @@ impl Cfg {
             }
             i += 1;
         }
+        c.report = c.extra.get("report-as").cloned().unwrap_or_else(|| c.prop.clone());
         c
     }
     pub fn thorough(&self) -> bool {
@@ -444,6 +456,7 @@ pub struct CellStats {
     pub hang: Option<u128>,
     pub wall_s: f64,
     pub samples: Vec<Value>,
+    pub chunks: Vec<(u64, u64)>,
 }
 
 struct Slot {
@@ -474,7 +487,7 @@ pub fn enc_i(v: i128) -> u128 {
 /// Explore one cell completely. Returns its statistics. On a hang, writes what it knows and exits the process.
 pub fn run_cell(cfg: &Cfg, cell: &CellDef, findings: &[Finding], on_hang: &(dyn Fn(&CellStats) + Sync)) -> CellStats {
     let t0 = Instant::now();
-    let fnd: Vec<&Finding> = findings.iter().filter(|f| f.matches_cell(&cfg.prop, &cell.name) || f.matches_cell(cell.prop, &cell.name)).collect();
+    let fnd: Vec<&Finding> = findings.iter().filter(|f| f.matches_cell(&cfg.report, &cell.name) || (cfg.report == cfg.prop && f.matches_cell(cell.prop, &cell.name))).collect();
     let skipf: Vec<&Finding> = fnd.iter().copied().filter(|f| f.skip).collect();
     let total_mode = cfg.mode == Mode::Total;
     let n = cell.len;
@@ -488,6 +501,7 @@ pub fn run_cell(cfg: &Cfg, cell: &CellDef, findings: &[Finding], on_hang: &(dyn 
     let bitmap: Vec<AtomicU64> = (0..(1usize << 14)).map(|_| AtomicU64::new(0)).collect(); // 2^20 bits
     let dump: Mutex<Vec<u128>> = Mutex::new(vec![]);
     let want_dump = cfg.dump_fails.is_some();
+    let want_chunks = cfg.digest_out.is_some();
     let max_viol = 16usize;
 
     std::thread::scope(|s| {
@@ -592,6 +606,9 @@ pub fn run_cell(cfg: &Cfg, cell: &CellDef, findings: &[Finding], on_hang: &(dyn 
                     }
                     sl.active.store(false, Ordering::Relaxed);
                     st.digest = st.digest.wrapping_add(mix(start, dg));
+                    if want_chunks {
+                        st.chunks.push((start, dg));
+                    }
                 }
                 let mut m = merged.lock().unwrap();
                 m.cases += st.cases;
@@ -602,6 +619,7 @@ pub fn run_cell(cfg: &Cfg, cell: &CellDef, findings: &[Finding], on_hang: &(dyn 
                 m.panics += st.panics;
                 m.skipped += st.skipped;
                 m.digest = m.digest.wrapping_add(st.digest);
+                m.chunks.extend(st.chunks);
                 for (k, v) in st.known_by {
                     *m.known_by.entry(k).or_default() += v;
                 }
@@ -623,6 +641,7 @@ pub fn run_cell(cfg: &Cfg, cell: &CellDef, findings: &[Finding], on_hang: &(dyn 
 
     let mut st = merged.into_inner().unwrap();
     st.violations.sort_by_key(|f| f.key);
+    st.chunks.sort();
     st.distinct_outcomes_lb = bitmap.iter().map(|w| w.load(Ordering::Relaxed).count_ones() as u64).sum();
     // seed-rotated samples: re-evaluate a few cases and write them out
     if n > 0 {
@@ -731,8 +750,20 @@ pub fn run_cells(cfg: &Cfg, cells: Vec<CellDef>, extra: Extra, rep: Report) -> i
         }
         let bad = if cfg.mode == Mode::Total { o1.panicked } else { !o1.ok };
         if bad {
-            println!("VIOLATION property={} replay={}", cfg.prop, path);
+            println!("VIOLATION property={} replay={}", cfg.report, path);
             return 1;
+        }
+        return 0;
+    }
+    if let Some(spec) = cfg.extra.get("eval-chunk") {
+        // --x-eval-chunk "<cell>@<start hex>": print key, got, panicked for the CHUNK cases from that index
+        let (cname, st) = spec.rsplit_once('@').expect("cell@start");
+        let start = u64::from_str_radix(st, 16).unwrap();
+        let Some(cell) = cells.iter().find(|c| c.name == cname) else { return 2 };
+        for i in start..(start + CHUNK).min(cell.len) {
+            let key = (cell.key)(i);
+            let o = (cell.f)(key);
+            println!("{:x} {:x} {}", key, o.got, o.panicked as u8);
         }
         return 0;
     }
@@ -745,7 +776,7 @@ pub fn run_cells(cfg: &Cfg, cells: Vec<CellDef>, extra: Extra, rep: Report) -> i
 
     let deadline = Duration::from_secs(cfg.deadline_s);
     let mut stats: Vec<CellStats> = vec![];
-    let replay_dir = format!("{}/replay/{}", cfg.verif_dir, cfg.prop);
+    let replay_dir = format!("{}/replay/{}", cfg.verif_dir, cfg.report);
     let mut capped = false;
     for cell in &cells {
         if t0.elapsed() > deadline {
@@ -753,7 +784,7 @@ pub fn run_cells(cfg: &Cfg, cells: Vec<CellDef>, extra: Extra, rep: Report) -> i
             eprintln!("wall-clock cap reached before cell {}", cell.name);
             break;
         }
-        let prop = cfg.prop.clone();
+        let prop = cfg.report.clone();
         let rd = replay_dir.clone();
         let cname = cell.name.clone();
         let on_hang = move |st: &CellStats| {
@@ -790,7 +821,7 @@ pub fn run_cells(cfg: &Cfg, cells: Vec<CellDef>, extra: Extra, rep: Report) -> i
             let e = extra.known.iter().find(|e| &e.0 == id).unwrap();
             (String::from("-"), e.1.clone())
         });
-        println!("KNOWN-FINDING: property={} {} [{}]: {} ({} cases this run)", cfg.prop, cell, id, desc, cnt);
+        println!("KNOWN-FINDING: property={} {} [{}]: {} ({} cases this run)", cfg.report, cell, id, desc, cnt);
     }
     let mut first_replay: Option<String> = None;
     for st in &stats {
@@ -804,7 +835,7 @@ pub fn run_cells(cfg: &Cfg, cells: Vec<CellDef>, extra: Extra, rep: Report) -> i
                 let _ = std::fs::write(
                     &path,
                     serde_json::to_string_pretty(&json!({
-                        "property": cfg.prop, "cell": st.name, "space": st.desc, "tier": cfg.tier, "profile": cfg.profile,
+                        "property": cfg.report, "cell": st.name, "cells_of": cfg.prop, "space": st.desc, "tier": cfg.tier, "profile": cfg.profile,
                         "key": hex(v.key), "observed": if v.panicked { "PANIC".to_string() } else { hex(v.got) }, "expected": hex(v.want), "note": v.note,
                         "cell_disagreements_total": st.fails, "cell_disagreements_not_in_known_findings": unknown,
                     }))
@@ -812,7 +843,7 @@ pub fn run_cells(cfg: &Cfg, cells: Vec<CellDef>, extra: Extra, rep: Report) -> i
                 );
                 if j == 0 {
                     println!("cell {}: {} case(s) violate the property outside the known findings; first: key={} got={} want={} {}", st.name, unknown, hex(v.key), if v.panicked { "PANIC".to_string() } else { hex(v.got) }, hex(v.want), v.note);
-                    println!("VIOLATION property={} replay={}", cfg.prop, path);
+                    println!("VIOLATION property={} replay={}", cfg.report, path);
                     if first_replay.is_none() {
                         first_replay = Some(path.clone());
                     }
@@ -826,15 +857,22 @@ pub fn run_cells(cfg: &Cfg, cells: Vec<CellDef>, extra: Extra, rep: Report) -> i
         std::fs::create_dir_all(&replay_dir).ok();
         let path = format!("{}/{}.json", replay_dir, sanitize(path_hint));
         let _ = std::fs::write(&path, serde_json::to_string_pretty(v).unwrap());
-        println!("VIOLATION property={} replay={}", cfg.prop, path);
+        println!("VIOLATION property={} replay={}", cfg.report, path);
     }
 
-    // digests (C16)
-    let digests: BTreeMap<String, (String, u64, u64)> =
-        stats.iter().map(|s| (s.name.clone(), (format!("{:016x}", s.digest), s.cases, s.panics))).collect();
+    // digests (C16): per cell, and per chunk of CHUNK consecutive cases so that a mismatch can be localised
     if let Some(p) = &cfg.digest_out {
-        let v: BTreeMap<&String, Value> = digests.iter().map(|(k, d)| (k, json!({"digest": d.0, "cases": d.1, "panics": d.2}))).collect();
-        std::fs::write(p, serde_json::to_string_pretty(&v).unwrap()).unwrap();
+        let v: BTreeMap<&String, Value> = stats
+            .iter()
+            .map(|s| {
+                (
+                    &s.name,
+                    json!({"digest": format!("{:016x}", s.digest), "cases": s.cases, "panics": s.panics,
+                           "chunks": s.chunks.iter().map(|(st, d)| format!("{:x}:{:016x}", st, d)).collect::<Vec<_>>()}),
+                )
+            })
+            .collect();
+        std::fs::write(p, serde_json::to_string(&v).unwrap()).unwrap();
     }
 
     // evidence
@@ -855,7 +893,7 @@ pub fn run_cells(cfg: &Cfg, cells: Vec<CellDef>, extra: Extra, rep: Report) -> i
         .map(|f| json!({"cell": f.cell, "finding": f.id, "reason": f.desc}))
         .collect();
     let ev = json!({
-        "property_id": cfg.prop,
+        "property_id": cfg.report,
         "tier": if cfg.thorough() { "thorough" } else { "quick" },
         "seed": cfg.seed,
         "level": "model_checking",
@@ -884,7 +922,7 @@ pub fn run_cells(cfg: &Cfg, cells: Vec<CellDef>, extra: Extra, rep: Report) -> i
     if !cfg.no_evidence {
         let dir = format!("{}/evidence", cfg.verif_dir);
         std::fs::create_dir_all(&dir).ok();
-        std::fs::write(format!("{}/{}.json", dir, cfg.prop), serde_json::to_string_pretty(&ev).unwrap()).unwrap();
+        std::fs::write(format!("{}/{}.json", dir, cfg.report), serde_json::to_string_pretty(&ev).unwrap()).unwrap();
     } else if let Some(p) = cfg.extra.get("evidence-part") {
         std::fs::write(p, serde_json::to_string_pretty(&ev).unwrap()).unwrap();
     }
